@@ -16,7 +16,7 @@ def exhaustive_specs(rng, tier):
                 if tier == 'quick' and rng.random() < 0.6 and nd > 1:
                     continue
                 s = gen.rand_spec(rng, n_total=n, n_demes=nd, n_epochs=rng.choice([1, 2]), end_time='never')
-                s['n_items'] = [[p, int(c)] for p, c in zip(gen.POPS[:nd], comp)]
+                s['n_items'] = [[pc[0], int(c)] for pc, c in zip(s['n_items'], comp)]
                 specs.append(s)
     for nd in (1, 2):
         for n in range(2, (3 if tier == 'quick' else 4) + 1):
@@ -25,7 +25,7 @@ def exhaustive_specs(rng, tier):
             for comp in gen.compositions(n, nd):
                 for nu in sorted({0, n, rng.randrange(0, n + 1)}):
                     s = gen.rand_spec(rng, n_total=n, n_demes=nd, n_epochs=1, loci=2, end_time='never')
-                    s['n_items'] = [[p, int(c)] for p, c in zip(gen.POPS[:nd], comp)]
+                    s['n_items'] = [[pc[0], int(c)] for pc, c in zip(s['n_items'], comp)]
                     s['n_unlinked'] = nu
                     specs.append(s)
     return specs
